@@ -376,6 +376,25 @@ func TestMutants(t *testing.T) {
 		}
 		loc.flush(r, "mutants")
 	})
+	// the longest texts the grammar allows: six full groups and a dotted quad (45 bytes), with zones and ports
+	{
+		var loc local
+		for _, g := range []string{"ffff", "1111", "0abc", "f", "00f"} {
+			six := strings.Repeat(g+":", 6)
+			for _, q := range []string{"255.255.255.255", "12.12.12.1", "1.2.3.4", "100.100.100.100", "0.0.0.0", "255.255.255.256"} {
+				for _, tail := range []string{"", "%eth0", "%" + strings.Repeat("z", 40)} {
+					t := six + q + tail
+					ipCase(r, &loc, t)
+					ipCase(r, &loc, "["+t+"]:65535")
+					ipCase(r, &loc, strings.ToUpper(t))
+					ipCase(r, &loc, g+":"+t) // one group too many
+				}
+			}
+			ipCase(r, &loc, strings.Repeat(g+":", 7)+g)
+			ipCase(r, &loc, strings.Repeat(g+":", 7)+g+"%"+strings.Repeat("z", 60))
+		}
+		loc.flush(r, "longest")
+	}
 	// every byte value at every position of a few templates (replaced and inserted)
 	sweep := gen.ByteSweep([]string{"1.2.3.4", "255.0.10.99", "::", "::1", "1::", "1:2:3:4:5:6:7:8", "fe80::a:B%eth0", "::ffff:1.2.3.4", "1:2::7:8", "[::1]:80", "1.2.3.4:65535", "[fe80::1%e0]:0",
 		"ab.example.com", "a-b.c1", "xn--e1afmkfd.com", "x", "a1-"})
